@@ -49,7 +49,7 @@ pub struct MagCrystal {
     pub action: RotationMagneticMomentAction,
     pub uni: i32,
     pub construct_type: u8,
-    /// "plain" | "reversed" | "zero" | "cant"
+    /// "plain" | "reversed" | "zero" | "cant" | "noisy"
     pub variant: String,
     /// true when the generating group forces the moment to vanish (grey groups)
     pub forced_zero: bool,
@@ -136,6 +136,28 @@ impl MagCrystal {
         }
         r.variant = "cant".into();
         r.c.truth.steps.push("cant".into());
+        r
+    }
+    /// noise well inside the tolerances: atoms displaced by at most `radius` (lattice strained by the same relative size,
+    /// `gen::Crystal::noise`), every base moment perturbed by at most `mradius`; the generating group stays the truth
+    pub fn noisy(&self, rng: &mut Rng, radius: f64, mradius: f64) -> MagCrystal {
+        let mut r = self.clone();
+        r.c = self.c.noise(rng, radius);
+        for m in r.base_moments.iter_mut() {
+            match self.kind {
+                Kind::NonCollinear => {
+                    let v = loop {
+                        let v = Vector3::new(rng.uniform(-1.0, 1.0), rng.uniform(-1.0, 1.0), rng.uniform(-1.0, 1.0));
+                        if v.norm() <= 1.0 {
+                            break v;
+                        }
+                    };
+                    *m += v * mradius;
+                }
+                Kind::Collinear => m[0] += rng.uniform(-mradius, mradius),
+            }
+        }
+        r.variant = "noisy".into();
         r
     }
     pub fn zero_moments(&self) -> MagCrystal {
